@@ -18,6 +18,7 @@ def classify(prop, results, kf):
             continue
         for c in r['checks']:
             lp = label_props(c['label'])
+            if prop == 'C13' and lp is not None: lp = lp + ['C13']     # C13: every obligation of a paired kernel counts (same contract on both sides)
             if lp is not None and prop not in lp:
                 if c['status'] == 'FAILURE':
                     v['other_property_failures'].append(dict(unit=r['unit'], label=c['label']))
@@ -95,6 +96,8 @@ def write(prop, tier, seed, results, verdict, monitors, wall, rc, units):
         explanation="contracts are enforced per function (goto-instrument --dfcc --enforce-contract); callers are checked against callee "
                     "contracts only (--replace-call-with-contract); loops are closed by loop contracts or recursion contracts; "
                     "exit code of this run: %d" % rc)
+    if verdict.get('pairs') is not None:
+        cov['equivalence_pairs'] = verdict['pairs']
     if monitors is not None:
         cov['assumption_monitor'] = dict(families=monitors['families'], scenarios=monitors['scenarios'], failures=len(monitors['violations']),
                                          note='executions of real msm machines on a finite family; never counted as obligations')
